@@ -57,3 +57,41 @@ def comprehension(ctx, e, sc):
 
 def install(I):
     I.models.setdefault('comprehension', comprehension)
+
+
+# ------------------------------------------------------------------------------------------------
+# symbolic strings: character / slice / length as uninterpreted functions with facts on all literals
+
+def str_len(ctx, v):
+    I = ctx.I
+    if isinstance(v, Sym) and v.kind == 'str':
+        f = I.reg.ufunc('str.len', StrS, z3.IntSort())
+        I.reg.strfun_defs['str.len'] = len
+        I.assume(f(v.e) >= 0)
+        return Sym(f(v.e))
+    raise OutOfSubset("len of %r" % (v,))
+
+
+def str_getitem(ctx, s, idx):
+    I = ctx.I
+    if idx[0] == 'index' and isinstance(idx[1], int):
+        i = idx[1]
+        name = 'str.char[%d]' % i
+        f = I.reg.ufunc(name, StrS, StrS)
+        I.reg.strfun_defs[name] = lambda x, i=i: x[i]
+        # IndexError when the string is too short
+        ln = str_len(ctx, s)
+        I.oblige("%s/safety/str-index-in-range" % ctx.speckey, ln.e > i if i >= 0 else ln.e >= -i, 'safety')
+        return Sym(f(s.e))
+    if idx[0] == 'slice' and all(x is None or isinstance(x, int) for x in idx[1:]):
+        sl = slice(idx[1], idx[2], idx[3])
+        name = 'str.slice[%s:%s:%s]' % (idx[1], idx[2], idx[3])
+        f = I.reg.ufunc(name, StrS, StrS)
+        I.reg.strfun_defs[name] = lambda x, sl=sl: x[sl]
+        return Sym(f(s.e))
+    raise OutOfSubset("string subscript %r" % (idx,))
+
+
+def install_strings(I):
+    I.models['len.fallback'] = str_len
+    I.models['str.getitem'] = str_getitem
